@@ -314,6 +314,15 @@ func genC10(tier string, r *rng) {
 	emit("-", "ws://example.com/", buildResp(ok101, append([]hdr{{"X-A", " 1"}, {"Set-Cookie", " " + strings.Repeat("c", 300)}}, base...), "\r\n", nil))
 	emit("-", "ws://example.com/", append(buildResp(ok101, base[:2], "\r\n", nil)[:60], []byte("NoColonHere\r\n\r\n")...))
 	emit("-", "ws://example.com/", buildResp(ok101, []hdr{base[2], base[1], base[0]}, "\r\n", nil))
+	// header lines with an empty name (the colon first), before, between and after the mandatory ones
+	for _, eol := range []string{"\r\n", "\n"} {
+		for pos := 0; pos <= len(base); pos++ {
+			for _, e := range []hdr{{"", " x"}, {"", ""}, {" ", " y"}} {
+				hs := append(append(append([]hdr{}, base[:pos]...), e), base[pos:]...)
+				emit("-", "ws://example.com/", buildResp(ok101, hs, eol, nil))
+			}
+		}
+	}
 	emit("onhdr@"+hx([]byte("X-A")), "ws://example.com/", buildResp(ok101, append([]hdr{{"X-A", " 1"}}, base...), "\r\n", nil))
 	emit("onhdr@"+hx([]byte("X-B")), "ws://example.com/", buildResp(ok101, append([]hdr{{"X-A", " 1"}}, base...), "\r\n", nil))
 	emit("onhdr@"+hx([]byte("Upgrade")), "ws://example.com/", buildResp(ok101, base, "\r\n", nil))
